@@ -292,6 +292,10 @@ namespace Pistache::Http
                 return State::Again;
 
             char* end;
+            // the code has to start with a digit: strtol would skip white space and
+            // could read on past the buffered data
+            if (!std::isdigit(static_cast<unsigned char>(*codeToken.rawText())))
+                raise("Failed to parse return code");
             auto code = strtol(codeToken.rawText(), &end, 10);
             if (*end != ' ')
                 raise("Failed to parse return code");
